@@ -64,4 +64,15 @@ TEXT["C08"] = dict(
         "emit them); tie is sampling. Observation (not a violation): BSD0 backward seeks saturate to 0 instead of "
         "StormLib's sign-magnitude meaning, so such patches end in an MD5 error."),
   technique="Lean 4 proof (invariant by induction over operation histories, refinement to first-match lookup) + stateful differential correspondence")
+TEXT["C09"] = dict(
+  text=("Machine-checked Lean 4 theorems over a model in which tasks are pure functions and results are collected by "
+        "request index: for EVERY completion order (any list mentioning every index) slot i holds task i's result, so two "
+        "schedules always agree; chunk-then-flatten is the identity for every batch size k > 0, hence batched = unbatched = "
+        "sequential map with the thread count not occurring at all; with skip-errors a failing name changes only its own "
+        "slot; without it the call succeeds iff every request succeeds and then returns the sequential results in order. "
+        "Tied to the code by differential execution over request lists x threads x batch sizes x skip under contention, a "
+        "source scan for shared mutable state (assumption A1), and a slot-by-slot oracle against sequential read_file."),
+  note=("PARTIAL: real thread schedules are sampled, not proved; A1 (no shared mutable state) is a lexical scan, A2 "
+        "(rayon's indexed collect) is trusted."),
+  technique="Lean 4 proof (schedule-independence and chunk/flatten lemmas) + differential correspondence under contention")
 NA = {}
